@@ -34,7 +34,8 @@ def standard(ctx, props, harness=None, obl=None, cases=None, trusted=(), assumpt
        the indices of the mismatching cases on which the OBSERVATION violates the property's own predicate
        (the conclusion of the soundness theorem evaluated on the observed output): each index becomes an
        oracle hit, so that the VIOLATION line carries the failing input;
-       violating: [(definition name, class, idx file)] - the same with the key built as `Cxx:model-oracle:<class>`"""
+       violating: [(definition name, class, idx file)] - the same with the key built as `Cxx:model-oracle:<class>`.
+       A key may be a function of the case's idx line (it must return a stable shape name)"""
     model_oracles = list(model_oracles) + [(n, "%s:model-oracle:%s" % (ctx.pid, k), "the observed output violates the property predicate as evaluated in Coq (the implementation is more permissive than the specification)", f) for n, k, f in (violating or [])]
     for mod, thms in props:
         ctx.audit(mod, thms)
@@ -77,8 +78,9 @@ def standard(ctx, props, harness=None, obl=None, cases=None, trusted=(), assumpt
                     lines = open(os.path.join(ctx.work, idxf)).read().split("\n")
                 for m in re.findall(r"\d+", viol.split(":")[0])[:20]:
                     i = int(m)
-                    ctx.hits.append({"key": key, "oracle": "model-oracle: " + name, "what": what,
-                                     "case": lines[i] if i < len(lines) else "case %d" % i})
+                    line = lines[i] if i < len(lines) else "case %d" % i
+                    ctx.hits.append({"key": key(line) if callable(key) else key, "oracle": "model-oracle: " + name, "what": what,
+                                     "case": line})
     ctx.assumptions = list(assumptions)
     return ctx.finish(checker or ("bin/build-coq; coqc Audit_*/Obl_*/Cases* (lib/core.py); go test -overlay " + (harness[0] if harness else "")),
                       COMMON_TRUSTED + list(trusted), unproved)
